@@ -117,6 +117,8 @@ func c06Check(c c06Case) vfResult {
 			case "lookup":
 				lookups++
 				readers++
+			case "inspect":
+				readers++
 			default:
 				readers++
 			}
@@ -138,6 +140,9 @@ func c06Check(c c06Case) vfResult {
 			backing[i] = b
 		}
 		obs := make([][]c06Obs, len(c.Progs))
+		shared := make([]atomic.Pointer[MIME], len(c.Progs)) // latest result of each goroutine, visible to all
+		applied := make([]int32, len(c.Exts))                 // 1 = this run really called Extend for extension k
+		var inspectErr atomic.Pointer[string]
 		var wg sync.WaitGroup
 		start := make(chan struct{})
 		for g := range c.Progs {
@@ -152,6 +157,23 @@ func c06Check(c c06Case) vfResult {
 						m := Detect(inputs[o.In%len(inputs)])
 						ob.res = vfChainStr(m)
 						_ = m.Is(m.String())
+						shared[g].Store(m)
+					case "inspect":
+						// accessor methods on values returned to OTHER goroutines
+						for i := range shared {
+							if m := shared[i].Load(); m != nil {
+								s1, e1 := m.String(), m.Extension()
+								s2 := m.String()
+								ok := m.Is(s1)
+								for p := m.Parent(); p != nil; p = p.Parent() {
+									_ = p.String()
+								}
+								if s1 == "" || s1 != s2 || !ok {
+									msg := fmt.Sprintf("shared result observed as String()=%q then %q, Extension()=%q, Is(String())=%v", s1, s2, e1, ok)
+									inspectErr.Store(&msg)
+								}
+							}
+						}
 					case "reader":
 						m, err := DetectReader(bytes.NewReader(inputs[o.In%len(inputs)]))
 						ob.res, ob.err = vfChainStr(m), err
@@ -173,8 +195,10 @@ func c06Check(c c06Case) vfResult {
 						al := backing[o.Ext]
 						if e.Parent == "" {
 							Extend(c06Pred(o.Ext), e.Mime, e.Ext, al...)
+							atomic.StoreInt32(&applied[o.Ext], 1)
 						} else if p := Lookup(e.Parent); p != nil {
 							p.Extend(c06Pred(o.Ext), e.Mime, e.Ext, al...)
+							atomic.StoreInt32(&applied[o.Ext], 1)
 						}
 						// the caller keeps using its own slice: read it, including the spare capacity
 						full := al[:cap(al)]
@@ -193,6 +217,23 @@ func c06Check(c c06Case) vfResult {
 		}
 		close(start)
 		wg.Wait()
+		if msg := inspectErr.Load(); msg != nil {
+			r.Err = fmt.Errorf("%s", *msg)
+			return r
+		}
+		// every Extend that returned must be in force afterwards (no lost update between writers)
+		for k, e := range c.Exts {
+			if atomic.LoadInt32(&applied[k]) == 0 {
+				continue
+			}
+			for _, n := range append([]string{e.Mime}, e.Aliases...) {
+				l := Lookup(n)
+				if l == nil || l.String() != e.Mime || l.Extension() != e.Ext {
+					r.Err = fmt.Errorf("extension %d (%s under %q) was registered by a completed Extend call but Lookup(%q) = %v after all goroutines finished", k, e.Mime, e.Parent, n, l)
+					return r
+				}
+			}
+		}
 		// (iii) lookups: nil or completely built
 		for g := range obs {
 			for _, ob := range obs[g] {
@@ -371,7 +412,11 @@ func c06Gen(t *rapid.T) c06Case {
 			case 5, 6:
 				prog = append(prog, c06Op{Op: "lookup", Name: rapid.SampledFrom(names).Draw(t, "name")})
 			case 7:
-				prog = append(prog, c06Op{Op: "setlimit", Limit: rapid.SampledFrom([]uint32{0, 1, 5, 64, 3072, 1 << 20}).Draw(t, "lim")})
+				if rapid.Bool().Draw(t, "insp") {
+					prog = append(prog, c06Op{Op: "inspect"})
+				} else {
+					prog = append(prog, c06Op{Op: "setlimit", Limit: rapid.SampledFrom([]uint32{0, 1, 5, 64, 3072, 1 << 20}).Draw(t, "lim")})
+				}
 			default:
 				// each extension is registered once, by one goroutine
 				for k := range c.Exts {
@@ -640,6 +685,8 @@ func TestVerif_C06(t *testing.T) {
 						ops = append(ops, fmt.Sprintf("setlimit(%d)", o.Limit))
 					case "extend":
 						ops = append(ops, fmt.Sprintf("extend(#%d)", o.Ext))
+					case "inspect":
+						ops = append(ops, "inspect-shared-results")
 					default:
 						ops = append(ops, fmt.Sprintf("%s(in%d)", o.Op, o.In))
 					}
